@@ -44,14 +44,16 @@ Definition verdict (c : case) : Z :=
     match impl with
     | Err _ => V_BAD                                  (* parsing must never raise *)
     | Ok (a, D) => let '(ma, mD) := split_infer isword s in
-                   if attrs_eqb a ma && dialect_eqb D mD then V_OK else V_OUT   (* drift on out-of-grammar text *)
+                   (* the model of the inference path is exact on arbitrary text (0 disagreements over every generated
+                      string on the unchanged tree): a disagreement is a violation, not "out-of-grammar drift" *)
+                   if attrs_eqb a ma && dialect_eqb D mD then V_OK else V_BAD
     end
   | CWith D s impl =>
     if wf_dialect D then
       match impl, split_with D s with
       | Err _, _ => V_BAD
-      | Ok a, Ok ma => if attrs_eqb a ma then V_OK else V_OUT
-      | Ok _, Err _ => V_OUT
+      | Ok a, Ok ma => if attrs_eqb a ma then V_OK else V_BAD
+      | Ok _, Err _ => V_BAD
       end
     else V_OUT
   end.
